@@ -428,10 +428,16 @@ def blocks_to_doc(blocks, indent):
     return out
 
 
-def blocks_to_calls(blocks):
-    e = ""
+def blocks_to_calls(blocks, explicit=None):
+    explicit = explicit or {}
+    slots = {}
     for name, b in zip(["descr", "header", "footer"], blocks):
-        e += ".%s(%s)" % (name, rust_str("\n".join(b)))
+        slots[name] = "\n".join(b)
+    slots.update(explicit)
+    e = ""
+    for name in ["descr", "header", "footer"]:
+        if name in slots:
+            e += ".%s(%s)" % (name, rust_str(slots[name]))
     return e
 
 
@@ -564,6 +570,12 @@ def gen_struct(rng, ix):
             t.fields = [gen_named_field(rng, names, tag + "f0")]
     t.blocks = doc_blocks(rng, tag)
     t.version = rng.choice([None, None, "cargo", "lit"])
+    # explicit descr/header/footer override exactly the slot they name; the doc comment's
+    # blocks keep filling the other slots positionally
+    t.explicit = {}
+    for slot in ("descr", "header", "footer"):
+        if rng.random() < 0.15:
+            t.explicit[slot] = "explicit %s of %s" % (slot, tag)
     t.vectors = vectors_for(t.fields, rng)
     return t
 
@@ -571,6 +583,8 @@ def gen_struct(rng, ix):
 def struct_src(t):
     d = blocks_to_doc(t.blocks, "")
     ann = "options"
+    for slot, text in t.explicit.items():
+        ann += ", %s(%s)" % (slot, rust_str(text))
     if t.version == "cargo":
         ann += ", version"
     elif t.version == "lit":
@@ -597,7 +611,7 @@ def struct_src(t):
         m += "    construct!(%s(%s))" % (t.name, ", ".join(idents))
     else:
         m += "    construct!(%s { %s })" % (t.name, ", ".join(idents))
-    m += ".to_options()" + blocks_to_calls(t.blocks)
+    m += ".to_options()" + blocks_to_calls(t.blocks, t.explicit)
     if t.version == "cargo":
         m += '.version(env!("CARGO_PKG_VERSION"))'
     elif t.version == "lit":
